@@ -81,7 +81,7 @@ FciCfg(v) ==
 
 \* the third-party family (packet type, minimum length, has SSRC), index fam + 1
 Family == << << 242, 12, TRUE >>, << 199, 4, FALSE >>, << 207, 8, TRUE >>, << 0, 16, TRUE >>,
-             << 255, 12, TRUE >>, << 192, 28, TRUE >> >>
+             << 255, 12, TRUE >>, << 192, 28, TRUE >>, << 242, 20, TRUE >> >>
 
 \* very long payloads are scripted compactly as big = [rep |-> byte, n |-> count]
 BigOr(c, v) == IF Has(c, "big") THEN [i \in 1..c.big.n |-> c.big.rep] ELSE v
@@ -131,7 +131,10 @@ IsOk(r)    == r.t = "ok"
 IsErr(r)   == r.t = "err"
 IsPanic(r) == r.t = "panic"
 AsErr(r)   == Err(r.e, r.f)
-Prefill(fill, i) == CASE fill = 0 -> 170 [] fill = 1 -> (7 * (i - 1) + 3) % 256 [] fill = 2 -> 0 [] OTHER -> 255
+Prefill(fill, i) == CASE fill = 0 -> 170 [] fill = 1 -> (7 * (i - 1) + 3) % 256 [] fill = 2 -> 0
+                      \* mode 4: a reused buffer that still holds the image written last in this session
+                      [] fill = 4 -> (IF i <= Len(img) THEN img[i] ELSE 170)
+                      [] OTHER -> 255
 
 IsPacketKind(c) == c.kind \notin {"item", "chunk"}
 
@@ -406,6 +409,8 @@ TypedConf(kind, b, res, base) ==
     /\ P("C01") => ~IsPanic(res)
     \* From<T> for Packet: the typed value wrapped into the generic enum has the variant of its type and the same contents
     /\ (P("C12") /\ IsOk(res) /\ Has(res, "as_packet")) => (res.as_packet.variant = kind /\ res.as_packet.same)
+    \* a fresh parse of the same bytes, read in another accessor order first, gives the same view
+    /\ ((P("C01") \/ P("C09") \/ P("C10") \/ P("C15")) /\ IsOk(res) /\ Has(res, "fresh_same")) => res.fresh_same
     \* C18, second sentence: a too-short input and a version-2 input of the right type with a wrong length ARE reported
     /\ (P("C18") /\ MandatedErr(MinLen(kind), PTOf(kind), b) # {}) => IsErr(res)
     /\ IsOk(res) =>
@@ -526,14 +531,26 @@ ContentEq(kind, v, w) ==      \* every content accessor equal; header length / p
       [] kind = "app"  -> v.ssrc = w.ssrc /\ v.name = w.name /\ v.data = w.data /\ v.hdr.subtype = w.hdr.subtype
       [] kind \in {"tfb", "pfb"} -> v.sender = w.sender /\ v.media = w.media /\ v.fci = w.fci
       [] OTHER -> TRUE
+\* the same through the generic parser: same variant, same contents, and the by-reference conversion to that
+\* variant (which copies the value) still has them
+PacketContentEq(v, w) ==
+    /\ v.variant = w.variant
+    /\ v.variant \in PacketKinds =>
+          /\ ContentEq(v.variant, v.inner, w.inner)
+          /\ IsOk(w.conv[w.variant]) /\ ContentEq(v.variant, v.inner, w.conv[w.variant].view)
+          /\ Has(w, "conv_val") => (IsOk(w.conv_val[w.variant]) /\ ContentEq(v.variant, v.inner, w.conv_val[w.variant].view))
 
 PadPairConf(kind, b, n, padded, res, resp) ==
     (P("C13") /\ IsOk(res) /\ ~PBit(b)) =>
           /\ IsOk(resp)
-          /\ resp.view.hdr.padding = n
-          /\ resp.view.hdr.length = Len(b) + n
-          /\ resp.view.hdr.count = res.view.hdr.count
-          /\ ContentEq(kind, res.view, resp.view)
+          /\ IF kind = "packet"
+             THEN /\ resp.view.phdr.length = Len(b) + n /\ resp.view.phdr.count = res.view.phdr.count
+                  /\ resp.view.variant \in PacketKinds => resp.view.inner.hdr.padding = n
+                  /\ PacketContentEq(res.view, resp.view)
+             ELSE /\ resp.view.hdr.padding = n
+                  /\ resp.view.hdr.length = Len(b) + n
+                  /\ resp.view.hdr.count = res.view.hdr.count
+                  /\ ContentEq(kind, res.view, resp.view)
 
 -----------------------------------------------------------------------------
 (* C11: the compound iterator                                                *)
@@ -770,6 +787,11 @@ Conf(ev) ==
                                   /\ WriteConf(bld.cfg, ann, None, ev.len, 0, ev.res, ev.out)
                                   /\ WriteConf(bld.cfg, ann, [L |-> ev.len, fill |-> 0, res |-> ev.res, out |-> ev.out, same |-> TRUE],
                                                ev.len, 1, ev.res1, ev.out1)
+      \* write_into_unchecked into exactly the announced size, after ANOTHER builder was sized in between
+      [] ev.op = "write_unchecked" -> /\ Len(ev.out) = ev.len
+                                      /\ WriteConf(bld.cfg, None, None, ev.len, ev.fill, ev.res, ev.out)
+                                      /\ (P("C06") \/ P("C07") \/ P("C20")) =>
+                                            (Accepts(bld.cfg) => (ev.len = Size(bld.cfg) /\ IsOk(ev.res) /\ ev.res.n = ev.len))
       [] ev.op = "get_padding" -> GetPaddingConf(bld.cfg, ev.res)
       [] ev.op \in {"item_write", "chunk_write"} -> StandaloneConf(ev)
       [] ev.op = "parse"       -> ParseEvConf(ev)
@@ -791,6 +813,8 @@ Conf(ev) ==
       [] ev.op = "cnext"       -> IF cit.valid THEN CNextConf(cit, ev) ELSE ev.res.t = "closed"
       [] ev.op = "nack_open"   -> (P("C01") \/ P("C15")) => IsOk(ev.res)
       [] ev.op = "nack_next"   -> NackNextConf(nit.its[ev.it + 1], ev.res)
+      [] ev.op = "nack_pair"   -> (P("C01") \/ P("C15")) =>
+                                     (IsOk(ev.res) /\ ev.res.a = DecNack(ev.a) /\ ev.res.b = DecNack(ev.b))
       [] ev.op = "check_padding" -> CheckPaddingConf(ev.p, ev.res)
       [] ev.op = "write_header"  -> WriteHeaderConf(Family[ev.fam + 1][1], ev.p, ev.cnt, ev.len, ev.hlen, ev.fill, ev.res, ev.out)
       [] ev.op = "write_padding" -> WritePaddingConf(ev.p, ev.len, ev.fill, ev.res, ev.out)
@@ -810,6 +834,10 @@ Update(ev) ==
             /\ UNCHANGED << img, cit, nit >>
       [] ev.op = "calc_size" -> ann' = ev.res /\ UNCHANGED << bld, wr, img, cit, nit >>
       [] ev.op = "write_into" ->
+            /\ wr' = [L |-> ev.len, fill |-> ev.fill, res |-> ev.res, out |-> ev.out, same |-> FALSE]
+            /\ img' = IF IsOk(ev.res) /\ ev.res.n <= Len(ev.out) THEN SubSeq(ev.out, 1, ev.res.n) ELSE img
+            /\ UNCHANGED << bld, ann, cit, nit >>
+      [] ev.op = "write_unchecked" ->
             /\ wr' = [L |-> ev.len, fill |-> ev.fill, res |-> ev.res, out |-> ev.out, same |-> FALSE]
             /\ img' = IF IsOk(ev.res) /\ ev.res.n <= Len(ev.out) THEN SubSeq(ev.out, 1, ev.res.n) ELSE img
             /\ UNCHANGED << bld, ann, cit, nit >>
